@@ -44,7 +44,9 @@ LEVEL_TEXT = ("Coq proofs over an executable model of EffectInner, the notificat
               "RenderEffect / watch and an explicit run queue, for all programs, all histories and all schedules; tied to /repo by "
               "running the extracted model and the real effects on the same cases with a harness-owned executor (full traces "
               "compared, small programs exhaustively over schedules) and an independent idle-consistency recomputation in Python.")
-LEVEL_NOTE = "see Properties_C02.v; findings F-C02-a/b/c repaired, F-C02-d open; ImmediateEffect oracle-only."
+LEVEL_NOTE = ("see Properties_C02.v: idle convergence is proved for every program outside the class self_feeding (effects and watch "
+              "handlers may write signals, but not into their own static cone); findings F-C02-a/b/c repaired, F-C02-d (exactly that "
+              "class, same predicate as classify() here) open; ImmediateEffect oracle-only.")
 TECHNIQUE = "Coq proof (invariant over all schedules) + differential correspondence of the extracted model with the Rust code"
 
 
